@@ -1,4 +1,4 @@
 SPECIFICATION Spec
 CONSTANTS
-  Threshold = "gt10"
+  Threshold = "byLength"
 INVARIANT Emit
